@@ -198,11 +198,43 @@ def ob_branches(run, tier):
             for (clause, msg) in r:
                 g = groups.setdefault((hx, clause), [0, (bs + b'\x90' * 4).hex(), off, msg])
                 g[0] += 1
+    # history: decodes in 16-bit address / operand size share table entries (operand descriptors) with the 32-bit forms; after them every
+    # plain encoding must still give what it gave before
+    from miasmx.arch.ia32_arch import x86mnemo, u16
+    for hx in HISTORY:
+        try: x86mnemo.dis(binascii.unhexlify(hx))
+        except Exception: pass
+        try: x86mnemo.dis(binascii.unhexlify(hx), {'opmode': u16, 'admode': u16})
+        except Exception: pass
+    for op in BR_OPS:
+        for size in (1, 2, 4):
+            for d in DISP[size][:3]:
+                bs = bytes(op) + d.to_bytes(size, 'little') + b'\x90' * 4
+                r = check_branch(bs, OFFS[0])
+                if r is None: continue
+                n += 1
+                for (clause, msg) in r:
+                    key = (''.join('%02x' % b for b in op), clause)
+                    if key in groups: continue          # already failing before the history: not a history effect
+                    g = groups.setdefault((key[0], clause + '@after-16bit-decodes'), [0, bs.hex(), OFFS[0], msg + ' (only after decoding %s in 16-bit modes in the same process)' % ' '.join(HISTORY)])
+                    g[0] += 1
     return n, groups
+
+HISTORY = ['67e80000', '670f840000', '670f850000', '67e90000', '67eb00', '66e80000', '67e2fe', '67e300', '6667e80000']
 
 def replay(kind, data):
     from bounded import x86enum
     x86enum.quiet()
+    if kind == 'branch' and data['clause'].endswith('@after-16bit-decodes'):
+        from miasmx.arch.ia32_arch import x86mnemo, u16
+        for hx in HISTORY:
+            try: x86mnemo.dis(binascii.unhexlify(hx))
+            except Exception: pass
+            try: x86mnemo.dis(binascii.unhexlify(hx), {'opmode': u16, 'admode': u16})
+            except Exception: pass
+        r = check_branch(binascii.unhexlify(data['hex']), data['offset'])
+        for x in r or []: print(x)
+        return 1 if any(x[0] + '@after-16bit-decodes' == data['clause'] for x in (r or [])) else 0
     if kind == 'flowfn':
         r = native_flow(data); print(r); return 1 if r else 0
     if kind == 'attr':
